@@ -23,7 +23,10 @@ import (
 // must reproduce segments, bounds and extents.
 
 type c10fInput struct {
-	Kind   string   `json:"kind"` // font | synth
+	Kind   string   `json:"kind"`            // font | synth | font2 | synth2 (CFF2 at the default coordinates)
+	KS     []int    `json:"ks,omitempty"`    // CFF2: region count of every ItemVariationData
+	Valid  []bool   `json:"valid,omitempty"` // CFF2: its region indices are valid
+	DefVS  int      `json:"def_vs,omitempty"`
 	Font   string   `json:"font,omitempty"`
 	Gids   []int    `json:"gids,omitempty"`
 	CS     [][]byte `json:"cs,omitempty"` // synthetic charstrings, all run with the same subroutines
@@ -131,6 +134,10 @@ func c10fGen(r *vh.Rand, tier string, n int, emit func(any)) {
 	for i := 0; i < nSynth; i++ {
 		emit(c10fGenSynth(r))
 	}
+	for i := 0; i < nSynth/2; i++ {
+		emit(c10fGenSynth2(r))
+	}
+	c10fGenFonts2(r, tier, emit)
 	corpus := c10fCorpus()
 	order := r.Perm(len(corpus))
 	budget := n
@@ -196,7 +203,16 @@ func c10fNum(r *vh.Rand, v int) []byte {
 }
 
 func c10fGenProgram(r *vh.Rand, nLocal, nGlobal int, depth int, top bool) []byte {
+	return c10fGenProgramV(r, nLocal, nGlobal, depth, top, nil)
+}
+
+// ks != nil: a CFF2 program (blend / vsindex, no endchar / return except 5% of the time)
+func c10fGenProgramV(r *vh.Rand, nLocal, nGlobal int, depth int, top bool, ks []int) []byte {
 	var out []byte
+	curK := 0
+	if len(ks) > 0 {
+		curK = ks[0]
+	}
 	val := func() int {
 		switch r.Intn(10) {
 		case 0:
@@ -218,6 +234,35 @@ func c10fGenProgram(r *vh.Rand, nLocal, nGlobal int, depth int, top bool) []byte
 		extra := 0
 		if r.Chance(6) {
 			extra = r.Range(1, 2) // wrong operand count
+		}
+		if ks != nil && r.Chance(25) {
+			if r.Chance(25) && len(ks) > 0 { // vsindex
+				idx := r.Intn(len(ks))
+				if r.Chance(10) {
+					idx = r.Range(-2, len(ks)+1)
+				}
+				out = append(out, c10fNum(r, idx)...)
+				out = append(out, 15)
+				if idx >= 0 && idx < len(ks) {
+					curK = ks[idx]
+				}
+			} else { // blend: n operands with curK deltas each, then an operator using the n results
+				n := r.Range(1, 3)
+				cnt := n * (curK + 1)
+				if r.Chance(8) {
+					cnt += r.Range(-2, 2)
+					if cnt < 0 {
+						cnt = 0
+					}
+				}
+				push(cnt)
+				out = append(out, c10fNum(r, n)...)
+				out = append(out, 16)
+				if r.Chance(70) {
+					out = append(out, []byte{21, 5, 22, 4, 6, 7}[r.Intn(6)])
+				}
+			}
+			continue
 		}
 		switch r.Intn(24) {
 		case 0:
@@ -317,7 +362,11 @@ func c10fGenProgram(r *vh.Rand, nLocal, nGlobal int, depth int, top bool) []byte
 			}
 		}
 	}
-	if top {
+	if ks != nil {
+		if r.Chance(5) {
+			out = append(out, []byte{11, 14}[r.Intn(2)]) // not CFF2 operators
+		}
+	} else if top {
 		if r.Chance(90) {
 			if r.Chance(20) {
 				push(1)
@@ -348,6 +397,99 @@ func c10fGenSynth(r *vh.Rand) c10fInput {
 		in.CS = append(in.CS, c10fGenProgram(r, nLocal, nGlobal, 0, true))
 	}
 	return in
+}
+
+func c10fGenSynth2(r *vh.Rand) c10fInput {
+	nLocal, nGlobal := r.Intn(5), r.Intn(4)
+	in := c10fInput{Kind: "synth2"}
+	nv := r.Intn(4)
+	for i := 0; i < nv; i++ {
+		k := r.Intn(4)
+		in.KS = append(in.KS, k)
+		in.Valid = append(in.Valid, k == 0 || !r.Chance(8)) // without region there is no region index to be wrong
+	}
+	ks := in.KS
+	if ks == nil {
+		ks = []int{}
+	}
+	in.DefVS = 0
+	if r.Chance(20) {
+		in.DefVS = r.Range(-1, nv+1)
+	}
+	if in.DefVS > 0 && in.DefVS < nv {
+		ks = append([]int{ks[in.DefVS]}, ks[1:]...) // the generator assumes ks[0] is the active one
+	}
+	for i := 0; i < nLocal; i++ {
+		in.Local = append(in.Local, c10fGenProgramV(r, nLocal, nGlobal, 3, false, ks))
+	}
+	for i := 0; i < nGlobal; i++ {
+		in.Global = append(in.Global, c10fGenProgramV(r, 0, nGlobal, 8, false, ks))
+	}
+	k := r.Range(3, 8)
+	for i := 0; i < k; i++ {
+		in.CS = append(in.CS, c10fGenProgramV(r, nLocal, nGlobal, 0, true, ks))
+	}
+	return in
+}
+
+func c10fMin(a, b int) int {
+	if a < b {
+		return a
+	}
+	return b
+}
+
+// corpus fonts with a CFF2 table
+func c10fGenFonts2(r *vh.Rand, tier string, emit func(any)) {
+	root := c10Root()
+	var rels []string
+	filepath.Walk(root, func(p string, info os.FileInfo, err error) error {
+		if err != nil || info.IsDir() || !(strings.HasSuffix(p, ".otf") || strings.HasSuffix(p, ".ttf")) {
+			return nil
+		}
+		file, err := os.ReadFile(p)
+		if err != nil || len(file) < 12 || !bytes.Contains(file[:c10fMin(len(file), 4096)], []byte("CFF2")) {
+			return nil
+		}
+		rel, _ := filepath.Rel(root, p)
+		rels = append(rels, rel)
+		return nil
+	})
+	sort.Strings(rels)
+	for _, rel := range rels {
+		ft := c10fLoad(rel)
+		if ft == nil {
+			continue
+		}
+		if ft.VerifCFF2() == nil {
+			// every corpus font with a CFF2 table is well-formed: the run reports the rejection
+			emit(c10fInput{Kind: "font2", Font: rel})
+			continue
+		}
+		n := len(ft.VerifCFF2().Charstrings)
+		k := 12
+		if tier == "thorough" {
+			k = 600
+		}
+		var gids []int
+		if n <= k {
+			for g := 0; g < n; g++ {
+				gids = append(gids, g)
+			}
+		} else {
+			for _, g := range r.Perm(n)[:k] {
+				gids = append(gids, g)
+			}
+			sort.Ints(gids)
+		}
+		for lo := 0; lo < len(gids); lo += 60 {
+			hi := lo + 60
+			if hi > len(gids) {
+				hi = len(gids)
+			}
+			emit(c10fInput{Kind: "font2", Font: rel, Gids: gids[lo:hi]})
+		}
+	}
 }
 
 // ---- execution ----------------------------------------------------------------------------------
@@ -439,6 +581,10 @@ func c10fRun(o *vh.Out, inAny any) {
 	type group struct {
 		local, global [][]byte
 		glyphs        []string
+		cff2          bool
+		ks            []int
+		valid         []bool
+		defVS         int
 	}
 	var groups []*group
 	func() {
@@ -465,6 +611,83 @@ func c10fRun(o *vh.Out, inAny any) {
 			}
 			groups = append(groups, g)
 			classes = append(classes, "synthetic_charstrings")
+		case "synth2":
+			g := &group{local: in.Local, global: in.Global, cff2: true, ks: in.KS, valid: in.Valid, defVS: in.DefVS}
+			for i, cs := range in.CS {
+				segs, bounds, err := cff.VerifRunCharstring2(cs, in.Local, in.Global, in.KS, in.Valid, in.DefVS)
+				s, bad := c10fGlyph(i, cs, segs, bounds, err, bounds.ToExtents())
+				if bad != "" {
+					fails = append(fails, bad)
+				}
+				g.glyphs = append(g.glyphs, s)
+				if err != nil {
+					o.Count("cs2_error")
+				} else {
+					o.Count(fmt.Sprintf("cs2_segments=%d", bucket(len(segs))))
+				}
+			}
+			groups = append(groups, g)
+			classes = append(classes, "synthetic_cff2_charstrings")
+		case "font2":
+			ft := c10fLoad(in.Font)
+			if ft == nil {
+				fails = append(fails, "driver: cannot load "+in.Font)
+				return
+			}
+			if ft.VerifCFF2() == nil {
+				fails = append(fails, "the CFF2 table of the corpus font "+in.Font+" is rejected by cff.ParseCFF2")
+				return
+			}
+			c := ft.VerifCFF2()
+			face := font.NewFace(ft)
+			byKey := map[string]*group{}
+			for _, gid := range in.Gids {
+				if gid >= len(c.Charstrings) {
+					continue
+				}
+				local, global, ks, valid, defVS, err := c.VerifGlyphEnv2(tables.GlyphID(gid))
+				if err != nil {
+					o.Count("fdselect_error")
+					continue
+				}
+				key := fmt.Sprintf("%p/%d", local, defVS)
+				g := byKey[key]
+				if g == nil {
+					g = &group{local: local, global: global, cff2: true, ks: ks, valid: valid, defVS: defVS}
+					byKey[key] = g
+					groups = append(groups, g)
+				}
+				segs, bounds, err := c.LoadGlyph(tables.GlyphID(gid), nil)
+				ext := bounds.ToExtents()
+				if err == nil {
+					if fe, ok := face.GlyphExtents(font.GID(gid)); !ok || fe != ext {
+						fails = append(fails, fmt.Sprintf("glyph %d: Face.GlyphExtents %v (ok=%v) != bounds.ToExtents %v", gid, fe, ok, ext))
+					}
+					ol, ok := face.GlyphData(font.GID(gid)).(font.GlyphOutline)
+					if !ok || len(ol.Segments) != len(segs) {
+						fails = append(fails, fmt.Sprintf("glyph %d: Face.GlyphData is not the CFF2 outline", gid))
+					} else {
+						for i := range segs {
+							if segs[i] != ol.Segments[i] {
+								fails = append(fails, fmt.Sprintf("glyph %d: Face.GlyphData segment %d differs", gid, i))
+								break
+							}
+						}
+					}
+					o.Count(fmt.Sprintf("cff2_segments=%d", bucket(len(segs))))
+					if len(local)+len(global) > 0 {
+						o.Count("cff2_glyph_of_font_with_subrs")
+					}
+				} else {
+					o.Count("cff2_error")
+				}
+				s, bad := c10fGlyph(gid, c.Charstrings[gid], segs, bounds, err, ext)
+				if bad != "" {
+					fails = append(fails, fmt.Sprintf("glyph %d: %s", gid, bad))
+				}
+				g.glyphs = append(g.glyphs, s)
+			}
+			classes = append(classes, "cff2_font")
 		case "font":
 			ft := c10fLoad(in.Font)
 			if ft == nil || ft.VerifCFF() == nil {
@@ -528,6 +751,13 @@ func c10fRun(o *vh.Out, inAny any) {
 	}
 	for gi, g := range groups {
 		coq := vh.App("CCff", c10fSubrs(g.local), c10fSubrs(g.global), vh.List(g.glyphs))
+		if g.cff2 {
+			vs := make([]string, len(g.ks))
+			for i := range g.ks {
+				vs[i] = vh.Tuple(vh.Zi(g.ks[i]), vh.Bool(g.valid[i]))
+			}
+			coq = vh.App("CCff2", c10fSubrs(g.local), c10fSubrs(g.global), vh.List(vs), vh.Zi(g.defVS), vh.List(g.glyphs))
+		}
 		key := ""
 		if len(g.glyphs) > 0 {
 			key = coq
